@@ -593,11 +593,20 @@ func main() {
 		}
 		done <- true
 	}()
-	select {
-	case <-done:
-	case <-time.After(600 * time.Second):
-		fmt.Fprintln(os.Stderr, "FATAL engine hung")
-		os.Exit(3)
+	// watchdog on progress: a hang is 180 s without a finished case / step
+	last, lastAt := -1, time.Now()
+	for running := true; running; {
+		select {
+		case <-done:
+			running = false
+		case <-time.After(5 * time.Second):
+			if rep.Cases != last {
+				last, lastAt = rep.Cases, time.Now()
+			} else if time.Since(lastAt) > 180*time.Second {
+				fmt.Fprintln(os.Stderr, "FATAL engine hung")
+				os.Exit(3)
+			}
+		}
 	}
 	rep.Emit()
 }
